@@ -2,7 +2,26 @@
 # Under the terms of Contract DE-NA0003525 with NTESS, the U.S. Government retains
 # certain rights in this software.
 
+from numbers import Integral
+
 from jaqalpaq.error import JaqalError
+from .parameter import AnnotatedValue, ParamType
+
+
+def validate_iterations(iterations, what):
+    """Raise a JaqalError unless iterations can be a repetition count: an
+    integer, or a let constant or macro parameter that may stand for one.
+
+    :param iterations: The candidate count.
+    :param str what: What is being repeated, for the error message.
+    """
+    if isinstance(iterations, AnnotatedValue):
+        if iterations.kind not in (ParamType.INT, ParamType.NONE):
+            raise JaqalError(
+                f"Cannot repeat {what} {iterations.name} times: it has non-integer kind {iterations.kind}."
+            )
+    elif isinstance(iterations, bool) or not isinstance(iterations, Integral):
+        raise JaqalError(f"Cannot repeat {what} {iterations} times: not an integer.")
 
 
 class BlockStatement:
